@@ -23,7 +23,7 @@ CTC3tp == I(50)
 CTCR == R(19, 20)
 CTDES_HIGH == R(1, 10)
 CTDES_LOW == R(1, 5)
-HPDES == R(3, 8)          \* as a fraction of c_tc2
+HPDES == R(3, 8)          \* as a fraction of c_tc2 (a lattice altitude: AT the transition altitude the low coefficient applies, BADA-3 3.7-10)
 CFCR == R(9, 10)
 V0 == I(10)
 
@@ -61,7 +61,7 @@ Sgr(c) == Div(c.v, FuelFlow(c))
 PointCases == [eng : Engines, W : {I(600), I(1200)}, v : {I(10), I(20)},
                rocd : {I(-15), I(-5), I(0), I(5), I(40)}, a : {I(0), R(1, 10), R(-1, 5)},     \* (a strong deceleration makes the
                \* total-energy thrust negative in level flight and in climb as well)
-               hf : {I(0), R(1, 4), R(1, 2)}, der : {"none", "partial", "clipped", "cold"},
+               hf : {I(0), R(1, 4), HPDES, R(1, 2)}, der : {"none", "partial", "clipped", "cold"},
                cruise : BOOLEAN]
 
 VARIABLES pcase, out, st
